@@ -4,7 +4,7 @@ ROOT = os.path.dirname(os.path.dirname(os.path.abspath(__file__)))
 SEEDS = {
  'C01': dict(file='src/compiler/rename.rs', fn='rename_args_bodyform (Call arm)',
              needs='a call with an &rest tail whose tail expression contains a let/let*/assign/lambda that re-binds a name already bound in an enclosing scope',
-             expect='missed by the claimed C01 mechanism check (name lookup); caught only if the rename pass itself is encoded'),
+             expect='C01 compile_run (template rest_tail_let); the mechanism check name_lookup does not see the rename pass'),
  'C02': dict(file='src/compiler/optimize/brief.rs', fn='brief_path_selection',
              needs='cl23+ optimised build; a quoted constant that is a proper list containing a two-element list (5 N) or (6 N) with integer N',
              expect='C02 output_optimize (FOCUS shapes in quick, all shapes in thorough)'),
@@ -90,6 +90,10 @@ SEEDS_B = {
               caught='C05 output_independent (template defconst_through_function under the reversed / rotated iteration policy, added in response; confirmed natively by 40 rebuilds)'),
  'C13b': dict(prop='C13', file='src/compiler/codegen.rs', fn='do_mod_codegen', needs='a nested (mod ...) in the main expression of a program with a non-inline defun',
               caught='C13 symbols_describe (template nested_mod, added in response)'),
+ 'C10b': dict(prop='C10', file='src/compiler/inline.rs', fn='make_args_for_call_from_inline', needs='an inline function whose body calls itself (directly or through another inline) from inside an &rest tail; the compiler then recurses until its stack overflows',
+              caught='C10 ill_scoped_rejected (template inline_recursion_in_rest_tail, added in response; the diverging compilation ends at the call-depth bound and is reported as the_compilation_terminates, confirmed natively by the stack-overflow abort)'),
+ 'C16b': dict(prop='C16', file='src/compiler/evaluate.rs', fn='synthesize_args', needs='a function with an (@ whole pattern) parameter whose body contains an if and uses `whole`, applied to an argument that is not exactly pattern shaped',
+              caught='C16 repl_agrees (session at_capture_if, added in response)'),
  'C17b': dict(prop='C17', file='src/compiler/usecheck.rs', fn='check_parameters_used_compileform', needs='a program on which the partial evaluator exceeds its stack budget (constant-bounded recursion of 20+ levels)',
               caught='C17 unused_really_unused (template evaluator_gives_up, added in response)'),
 }
@@ -99,7 +103,7 @@ for sid, d in SEEDS_B.items():
         continue
     meta = dict(seed=sid, breaks_property=d['prop'], file=d['file'], function=d['fn'], needs_to_manifest=d['needs'],
                 demonstration='demo.rs (installed as tests/verif_demo.rs in a scratch worktree)',
-                confirmed=dict(how='tools/confirm_seed2.sh in a scratch worktree /tmp/wt2_%s (removed afterwards)' % d['prop'],
+                confirmed=dict(how='tools/confirm_seed2.sh in a scratch worktree /tmp/wt2_%s or /tmp/wt3_%s (removed afterwards)' % (d['prop'], d['prop']),
                                suite_with_change='614 passed, 1 skipped (pinned nextest command)', demo_with_change='FAILED', demo_without_change='ok'),
                 ran=[dict(command='git -C /repo apply /verif/seeded/%s/patch.diff && /verif/check %s --tier quick; git -C /repo checkout -- .' % (sid, d['prop']),
                           check=d['prop'], tier='quick', caught=True, exit=1)],
